@@ -164,6 +164,43 @@ def history(kind, k):
     return body
 
 
+def reregister(kind):
+    """A peer that goes away and comes back starts from the defaults: symbolic
+    policy set through a real enableBLOB, unregister, optional traffic in
+    between, register again, then one device message."""
+    def body(d: Draw):
+        from indi.routing.router import Router
+        from indi.message import EnableBLOB
+        RecClient, RecDevice = endpoints()
+        router = Router()
+        c0, c1 = RecClient("c0"), RecClient("c1")
+        dev = RecDevice("A", "A")
+        router.register_device(dev)
+        router.register_client(c0)
+        router.register_client(c1)
+        n0 = d.choice(("A", "B"), "policy-device")
+        p0 = d.choice(("Never", "Also", "Only"), "policy")
+        router.process_message(EnableBLOB(device=n0, value=p0), sender=c0)
+        p1 = d.choice(POLICIES, "bystander-policy")
+        if p1 is not None:
+            router.process_message(EnableBLOB(device="A", value=p1), sender=c1)
+        router.unregister_client(c0)
+        if d.bool("traffic-while-away"):
+            router.process_message(make_message(kind, "A"), sender=dev)
+            if c0.got:
+                return verdict(False, "delivery to an unregistered client")
+        router.register_client(c0)
+        c0.got.clear()
+        c1.got.clear()
+        msg = make_message(kind, d.choice(("A", "B"), "msg-device"))
+        router.process_message(msg, sender=dev)
+        want0 = 1 if expected(kind, None) else 0
+        want1 = 1 if expected(kind, p1 if msg.device == "A" else None) else 0
+        ok = len(c0.got) == want0 and len(c1.got) == want1
+        return verdict(ok, "a re-registered client did not start from the default policy (or the bystander was disturbed)")
+    return body
+
+
 def handshake(which):
     """The library's own clients install their policy through the router:
     BaseClient.blob_handshake -> Never on the control connection,
@@ -225,6 +262,9 @@ def conditions(tier):
         out.append(Condition(f"history{k}/{kind}", make_condition(history(kind, k), 0, k + 1, 0),
                              about=f"{k} symbolic operations (enableBLOB / unregister / re-register) from the initial state, then {kind}",
                              encodes=ENC, bounds=f"{k} operations out of {len(ops_for(k))}", timeout=900))
+    for kind in ("SetBLOBVector", "SetTextVector"):
+        out.append(Condition(f"reregister/{kind}", make_condition(reregister(kind), 0, 5, 1),
+                             about=f"enableBLOB, unregister, register again, then {kind}: defaults apply", encodes=ENC, timeout=600))
     for which in ("BaseClient", "Client"):
         out.append(Condition(f"handshake/{which}", make_condition(handshake(which), 0, 3, 0),
                              about=f"{which}.blob_handshake installs the documented policy", encodes=ENC, timeout=300))
